@@ -34,6 +34,7 @@ type ArithCase struct {
 	Align       bool
 	TreeSize    uint64 // what the backend claims
 	ServeLeaves int    // how many leaves the backend returns at most (short read), >= 1
+	Metrics     bool   // process option --getentries_metrics
 }
 
 var maxChoices = []int64{1, 2, 3, 7, 256, 1000, math.MaxInt32, 1 << 62, math.MaxInt64}
@@ -104,6 +105,14 @@ func genArith(t *rapid.T) ArithCase {
 		c.HasEnd = false
 	case 4: // swapped => start > end mostly
 		c.Start, c.End = c.End, c.Start
+	case 5, 6: // non-canonical decimal spellings: leading zeros, a plus sign
+		pads := []string{"0", "00", "000000", "+", "+0"}
+		if rapid.Bool().Draw(t, "padstart") {
+			c.Start = pads[rapid.IntRange(0, len(pads)-1).Draw(t, "ps")] + c.Start
+		}
+		if rapid.Bool().Draw(t, "padend") {
+			c.End = pads[rapid.IntRange(0, len(pads)-1).Draw(t, "pe")] + c.End
+		}
 	}
 	// tree size around start (or anywhere)
 	switch rapid.IntRange(0, 9).Draw(t, "ts") {
@@ -117,6 +126,7 @@ func genArith(t *rapid.T) ArithCase {
 		c.TreeSize = uint64(rapid.Int64Range(0, math.MaxInt64).Draw(t, "tsr"))
 	}
 	c.ServeLeaves = rapid.IntRange(1, 4).Draw(t, "serve")
+	c.Metrics = rapid.IntRange(0, 3).Draw(t, "metrics") == 0
 	return c
 }
 
@@ -157,6 +167,10 @@ var (
 	sharedRoot = pki.Issue(nil, pki.CATemplate("C07 Root", keys.Pick("p256", 0), 1, nil), "root")
 )
 
+func setMetrics(on bool) {
+	flag.Lookup("getentries_metrics").Value.Set(strconv.FormatBool(on))
+}
+
 func setAlign(on bool) {
 	flag.Lookup("align_getentries").Value.Set(strconv.FormatBool(on))
 }
@@ -164,7 +178,11 @@ func setAlign(on bool) {
 func checkArith(t *testing.T, c ArithCase) (v harness.Verdict) {
 	ctfe.MaxGetEntriesAllowed = c.Max
 	setAlign(c.Align)
-	defer func() { ctfe.MaxGetEntriesAllowed = 1000; setAlign(true) }()
+	setMetrics(c.Metrics)
+	defer func() { ctfe.MaxGetEntriesAllowed = 1000; setAlign(true); setMetrics(false) }()
+	if c.Metrics {
+		v.Class("getentries-metrics-on")
+	}
 
 	be := reflog.New(6962, 1)
 	var served []*trillian.LogLeaf
